@@ -140,3 +140,71 @@ Proof.
   split; [lia|]. intros cl. cbn [wf_fmt]. split; [lia|]. intros sl. cbn [wf_fmt]. split; [lia|]. intros rl.
   apply wf_ClientHelloSSL2_inner.
 Qed.
+
+(* ---- RecordHeader2: the API view is injective on what fits, and refuses everything else ---- *)
+Lemma rh2_wf_short len : 0 <= len < 32768 ->
+  wf_val fmt_RecordHeader2 (VTag (128 + len / 256) (VInt (len mod 256))).
+Proof.
+  intros R.
+  assert (0 <= len / 256 < 128) by (split; [apply Z.div_pos; lia|apply Z.div_lt_upper_bound; lia]).
+  pose proof (Z.mod_pos_bound len 256 ltac:(lia)).
+  unfold fmt_RecordHeader2. cbn [wf_val]. rewrite ?Z.pow_1_r. split; [lia|].
+  destruct (128 <=? 128 + len / 256) eqn:G; [|lia]. cbn [wf_val]. rewrite ?Z.pow_1_r. lia.
+Qed.
+
+Lemma rh2_wf_long len pad (esc : bool) : 0 <= len < 16384 -> 0 <= pad < 256 ->
+  wf_val fmt_RecordHeader2 (VTag ((if esc then 64 else 0) + len / 256) (VPair (VInt (len mod 256)) (VInt pad))).
+Proof.
+  intros R P.
+  assert (0 <= len / 256 < 64) by (split; [apply Z.div_pos; lia|apply Z.div_lt_upper_bound; lia]).
+  pose proof (Z.mod_pos_bound len 256 ltac:(lia)).
+  unfold fmt_RecordHeader2. cbn [wf_val]. rewrite ?Z.pow_1_r. split; [destruct esc; lia|].
+  destruct (128 <=? (if esc then 64 else 0) + len / 256) eqn:G; [destruct esc; lia|].
+  cbn [wf_val]. rewrite ?Z.pow_1_r. lia.
+Qed.
+
+Lemma rh2_val_wf len pad esc v : rh2_val len pad esc = Some v -> wf_val fmt_RecordHeader2 v.
+Proof.
+  unfold rh2_val. destruct (rh2_short pad esc).
+  - destruct ((0 <=? len) && (len <? 32768)) eqn:E; [|discriminate]. intros H.
+    apply andb_true_iff in E. destruct E as [E1 E2].
+    assert (v = VTag (128 + len / 256) (VInt (len mod 256))) as -> by congruence.
+    apply rh2_wf_short. lia.
+  - destruct ((0 <=? len) && (len <? 16384) && (0 <=? pad) && (pad <? 256)) eqn:E; [|discriminate].
+    intros H.
+    apply andb_true_iff in E. destruct E as [E E4]. apply andb_true_iff in E. destruct E as [E E3].
+    apply andb_true_iff in E. destruct E as [E1 E2].
+    assert (v = VTag ((if esc then 64 else 0) + len / 256) (VPair (VInt (len mod 256)) (VInt pad))) as ->
+      by congruence.
+    apply rh2_wf_long; lia.
+Qed.
+
+Lemma rh2_fields_val len pad esc v : rh2_val len pad esc = Some v -> rh2_fields v = Some (len, pad, esc).
+Proof.
+  unfold rh2_val. destruct (rh2_short pad esc) eqn:S.
+  - destruct ((0 <=? len) && (len <? 32768)) eqn:E; [|discriminate]. intros H.
+    assert (v = VTag (128 + len / 256) (VInt (len mod 256))) as -> by congruence. clear H.
+    apply andb_true_iff in E. destruct E as [E1 E2].
+    unfold rh2_short in S. apply andb_true_iff in S. destruct S as [S1 S2].
+    apply Z.eqb_eq in S1. apply negb_true_iff in S2. subst pad esc.
+    assert (0 <= len / 256) by (apply Z.div_pos; lia).
+    cbn [rh2_fields]. destruct (128 <=? 128 + len / 256) eqn:G; [|lia].
+    pose proof (Z.div_mod len 256 ltac:(lia)). do 3 f_equal. lia.
+  - destruct ((0 <=? len) && (len <? 16384) && (0 <=? pad) && (pad <? 256)) eqn:E; [|discriminate].
+    intros H.
+    assert (v = VTag ((if esc then 64 else 0) + len / 256) (VPair (VInt (len mod 256)) (VInt pad))) as ->
+      by congruence. clear H.
+    apply andb_true_iff in E. destruct E as [E E4]. apply andb_true_iff in E. destruct E as [E E3].
+    apply andb_true_iff in E. destruct E as [E1 E2].
+    assert (0 <= len / 256 < 64) by (split; [apply Z.div_pos; lia|apply Z.div_lt_upper_bound; lia]).
+    pose proof (Z.div_mod len 256 ltac:(lia)).
+    cbn [rh2_fields].
+    destruct ((if esc then 64 else 0) + len / 256 <? 128) eqn:G; [|destruct esc; lia].
+    assert (((if esc then 64 else 0) + len / 256) mod 64 = len / 256) as M.
+    { destruct esc.
+      - symmetry. apply (Z.mod_unique_pos _ 64 1). lia. lia.
+      - apply Z.mod_small. lia. }
+    rewrite M. f_equal. f_equal; [f_equal; lia|].
+    destruct esc; [destruct (64 <=? 64 + len / 256) eqn:Q; [reflexivity|lia]
+                  |destruct (64 <=? 0 + len / 256) eqn:Q; [lia|reflexivity]].
+Qed.
